@@ -15,6 +15,8 @@ its surface shape:
       InlineJump their exact control flow (returns nested in loops or try
       blocks included).
   N3  setattr(x, "name", v) / getattr(x, "name") with a constant identifier -> plain attribute store / load.
+  N4  quantifier loops: `for T in XS: if C: return K` -> `if any(C for T in XS): return K` (all() for a negated C) and
+      `if any(G): return True; return False` -> `return any(G)`.
   N2  unrolling of `for` loops over a literal list / tuple display (or over a
       class / module constant that is such a display and is not in
       spec/known_functions.json's constants) of at most 8 items without
@@ -176,6 +178,61 @@ class _AttrCalls(ast.NodeTransformer):
         return node
 
 
+def _negate(c):
+    """-> the negation of c when c is syntactically negative (not X, a not in b, a != b, a is not b), else None"""
+    if isinstance(c, ast.UnaryOp) and isinstance(c.op, ast.Not):
+        return c.operand
+    if isinstance(c, ast.Compare) and len(c.ops) == 1:
+        flip = {ast.NotIn: ast.In, ast.NotEq: ast.Eq, ast.IsNot: ast.Is}
+        if type(c.ops[0]) in flip:
+            return ast.copy_location(ast.Compare(left=c.left, ops=[flip[type(c.ops[0])]()], comparators=c.comparators), c)
+    return None
+
+
+def _quantifier_loops(stmts):
+    """N4: `for T in XS: if C: return K` (K a constant, nothing else in the loop)  ->  `if any(C for T in XS): return K`
+    (`if not all(not-C ...)` when C is a negation); then `if any(G): return True; return False` -> `return any(G)` and
+    `if not all(G): return False; return True` -> `return all(G)`.  Same evaluation order and short-circuiting."""
+    out = []
+    for st in stmts:
+        if isinstance(st, ast.For) and not st.orelse and len(st.body) == 1 and isinstance(st.body[0], ast.If) \
+                and not st.body[0].orelse and len(st.body[0].body) == 1 and isinstance(st.body[0].body[0], ast.Return) \
+                and isinstance(st.body[0].body[0].value, ast.Constant):
+            c = st.body[0].test
+            neg = _negate(c)
+            if neg is not None:
+                gen = ast.GeneratorExp(elt=neg, generators=[ast.comprehension(target=st.target, iter=st.iter, ifs=[], is_async=0)])
+                test = ast.UnaryOp(op=ast.Not(), operand=ast.Call(func=ast.Name(id="all", ctx=ast.Load()), args=[gen], keywords=[]))
+            else:
+                gen = ast.GeneratorExp(elt=c, generators=[ast.comprehension(target=st.target, iter=st.iter, ifs=[], is_async=0)])
+                test = ast.Call(func=ast.Name(id="any", ctx=ast.Load()), args=[gen], keywords=[])
+            new = ast.If(test=test, body=st.body[0].body, orelse=[])
+            ast.copy_location(new, st)
+            ast.fix_missing_locations(new)
+            st = new
+        if isinstance(st, ast.Return) and isinstance(st.value, ast.Constant) and isinstance(st.value.value, bool) and out \
+                and isinstance(out[-1], ast.If) and not out[-1].orelse and len(out[-1].body) == 1 and isinstance(out[-1].body[0], ast.Return) \
+                and isinstance(out[-1].body[0].value, ast.Constant) and out[-1].body[0].value.value is (not st.value.value):
+            t = out[-1].test
+            k = out[-1].body[0].value.value
+            q = None
+            if k is True and isinstance(t, ast.Call) and isinstance(t.func, ast.Name) and t.func.id == "any" and len(t.args) == 1 \
+                    and isinstance(t.args[0], ast.GeneratorExp):
+                q = t
+            if k is False and isinstance(t, ast.UnaryOp) and isinstance(t.op, ast.Not) and isinstance(t.operand, ast.Call) \
+                    and isinstance(t.operand.func, ast.Name) and t.operand.func.id == "all" and len(t.operand.args) == 1 \
+                    and isinstance(t.operand.args[0], ast.GeneratorExp):
+                q = t.operand
+            if q is not None:
+                new = ast.Return(value=q)
+                ast.copy_location(new, out[-1])
+                ast.fix_missing_locations(new)
+                out[-1] = new
+                continue
+        out.append(st)
+    return out
+
+
 class _Rename(ast.NodeTransformer):
     def __init__(self, m):
         self.m = m
@@ -240,6 +297,7 @@ class Normalizer:
         self.known_c = known_constants
         self.counter = 0
         self.inlined = []      # (caller, helper) for evidence
+        self.dead = set()
         self.unrolled = []
         self._index()
 
@@ -371,7 +429,40 @@ class Normalizer:
                         if isinstance(s, ast.FunctionDef):
                             self._function(s, modname, st.name, (f"{modname}:{st.name}.{s.name}",))
             mod.tree = _AttrCalls().visit(mod.tree)
+        self._find_dead()
         return self
+
+    def _find_dead(self):
+        """Unknown helpers that no longer occur anywhere (every call was inlined): dead code, not indexed."""
+        self.dead = set()
+        cand = {}
+        for modname, mod in self.modules.items():
+            for st in mod.tree.body:
+                if isinstance(st, ast.FunctionDef) and f"{modname}:{st.name}" not in self.known_f:
+                    cand[f"{modname}:{st.name}"] = st
+                elif isinstance(st, ast.ClassDef):
+                    for s in st.body:
+                        if isinstance(s, ast.FunctionDef) and f"{modname}:{st.name}.{s.name}" not in self.known_f \
+                                and not (s.name.startswith("__") and s.name.endswith("__")):
+                            cand[f"{modname}:{st.name}.{s.name}"] = s
+        if not cand:
+            return
+        inlined = {h for _, h in self.inlined}
+        names = {}
+        for q, fd in cand.items():
+            names.setdefault(fd.name, []).append(q)
+        used = set()
+        for modname, mod in self.modules.items():
+            own = {id(x) for q, fd in cand.items() if q.startswith(modname + ":") for x in ast.walk(fd)}
+            for n_ in ast.walk(mod.tree):
+                if id(n_) in own:
+                    continue
+                nm = n_.id if isinstance(n_, ast.Name) else (n_.attr if isinstance(n_, ast.Attribute) else None)
+                if nm in names:
+                    used.add(nm)
+        for nm, qs in names.items():
+            if nm not in used:
+                self.dead |= {q for q in qs if q in inlined}
 
     def _function(self, fdef, modname, cname, stack):
         if getattr(fdef, "_normalised", False):
@@ -384,7 +475,7 @@ class Normalizer:
         out = []
         for st in stmts:
             out += self._stmt(st, modname, cname, stack, state)
-        return out
+        return _quantifier_loops(out)
 
     def _stmt(self, st, modname, cname, stack, state):
         rec = lambda body: self._stmts(body, modname, cname, stack, state)  # noqa: E731
